@@ -214,15 +214,33 @@ def build():
         dirs = z3.Function(ctx.fresh_name("walkdir"), z3.IntSort(), Dir.sort())
         return Opaque("walk", None, seq=(n, lambda i: (Sym(Dir, dirs(i)), Opaque("subdirs", None), Opaque("filenames", None, of=Sym(Dir, dirs(i))))))
 
+    # completeness of the inventory (C18: the limits hold AFTER reduce_size, so everything that occupies the store must be counted): an
+    # entry directory is excused only if it is seen disappearing while the inventory is taken - its own getatime fails, or one of the
+    # files listed in it is gone.  A missing output.pkl alone (writer killed during the dump, result that failed to pickle: the
+    # directory and its temporary stay) is no excuse.  Ghost PRESENT = entry directories met and not (yet) excused.
+    def _dir_of(path):
+        if isinstance(path, Opaque) and path.tag == "joined":
+            return path.attrs["parts"][0], path.attrs["parts"][1:]
+        return path, ()
+
+    def _excuse(interp, d):
+        g = interp.ctx.ghost
+        if "PRESENT" in g and isinstance(d, Sym):
+            g["PRESENT"] = Sym(DIRSET, z3.Store(g["PRESENT"].term, d.term, False))
+
     def getatime(interp, args, kwargs):
         interp.ctx.events.append(("getatime", args[0]))
         if interp.ctx.choose(2, "getatime:gone") == 1:
+            d, rest = _dir_of(args[0])
+            if not rest:
+                _excuse(interp, d)  # the directory itself is gone
             interp.raise_("OSError")
         return REAL.fresh(interp.ctx, "atime")
 
     def getsize(interp, args, kwargs):
         interp.ctx.events.append(("getsize", args[0]))
         if interp.ctx.choose(2, "getsize:gone") == 1:
+            _excuse(interp, _dir_of(args[0])[0])  # a file listed a moment ago is gone: the entry is being removed by someone else
             interp.raise_("FileNotFoundError")
         sz = INT.fresh(interp.ctx, "filesize")
         interp.ctx.assume(sz.term >= 0)
@@ -241,7 +259,12 @@ def build():
         def h(i, a, k):
             d = a[1].attrs["of"].term
             i.ctx.assume(z3.Implies(HASHDIR(d), STARTS_LIKE_HASH(d)))
-            return Opaque("match", None) if i.ctx.branch(HASHDIR(d) if full else STARTS_LIKE_HASH(d), "name-matches") else None
+            if i.ctx.branch(HASHDIR(d) if full else STARTS_LIKE_HASH(d), "name-matches"):
+                g = i.ctx.ghost
+                if "PRESENT" in g:
+                    g["PRESENT"] = Sym(DIRSET, z3.If(HASHDIR(d), z3.Store(g["PRESENT"].term, d, True), g["PRESENT"].term))
+                return Opaque("match", None)
+            return None
         return h
 
     p.models["re.match"] = re_match(False)
@@ -282,21 +305,30 @@ def build():
 
     p.spec_funcs["only_hash_dirs"] = only_hash_dirs
 
+    def complete(interp):
+        d = z3.Const("d!cmp", Dir.sort())
+        g = interp.ctx.ghost
+        return ops.mk_bool(z3.ForAll([d], z3.Implies(z3.Select(g["PRESENT"].term, d), z3.Select(g["REPORTED"].term, d))))
+
+    p.spec_funcs["inventory_complete"] = complete
+
     def gi_setup(interp, env):
         interp.ctx.ghost["REPORTED"] = Sym(DIRSET, z3.K(Dir.sort(), z3.BoolVal(False)))
+        interp.ctx.ghost["PRESENT"] = Sym(DIRSET, z3.K(Dir.sort(), z3.BoolVal(False)))
 
     p.spec_funcs["sizes_ok"] = lambda interp, lst: True if isinstance(lst, PyList) and not lst.items else ops.mk_bool(z3.ForAll(
         [z3.Int("j!gi")], z3.Implies(z3.And(0 <= z3.Int("j!gi"), z3.Int("j!gi") < lst.length), Item.field_fn("size")(z3.Select(lst.arr, z3.Int("j!gi"))) >= 0),
         patterns=[z3.Select(lst.arr, z3.Int("j!gi"))]))
     p.add(Contract(
-        STORE, "FileSystemStoreBackend.get_items", props=["C18", "C11"], globals={"CacheItemInfo": lambda interp: ClassRefCI}, ghost=dict(REPORTED=DIRSET), setup=gi_setup,
+        STORE, "FileSystemStoreBackend.get_items", props=["C18", "C11"], globals={"CacheItemInfo": lambda interp: ClassRefCI}, ghost=dict(REPORTED=DIRSET, PRESENT=DIRSET), setup=gi_setup,
         params=dict(self=ObjOf("FileSystemStoreBackend", location=OpaqueOf("location"))),
         ensures={"every_reported_size_is_non_negative": "sizes_ok(result)",
-                 "only_directories_named_by_an_argument_hash_are_entries": "only_hash_dirs()"},
+                 "only_directories_named_by_an_argument_hash_are_entries": "only_hash_dirs()",
+                 "every_entry_directory_not_seen_disappearing_is_counted": "inventory_complete()"},
         # no exsures: whatever disappears while the inventory is taken, no exception escapes
         loops={1: Loop("for (dirpath, _, filenames) in os.walk(self.location)",
-                       invariant={"sizes_so_far": "sizes_ok(items)", "entries_so_far": "only_hash_dirs()"},
-                       kinds={"items": ListOf(Item)}, havoc=["ghost:REPORTED"])},
+                       invariant={"sizes_so_far": "sizes_ok(items)", "entries_so_far": "only_hash_dirs()", "complete_so_far": "inventory_complete()"},
+                       kinds={"items": ListOf(Item)}, havoc=["ghost:REPORTED", "ghost:PRESENT"])},
     ))
 
     # ---- Memory.reduce_size: delegates to enforce_store_limits once, or does nothing
